@@ -94,7 +94,8 @@ def safeView : View safeImpl where
   new_cells := fun _ => rfl
   get_nf := by
     intro e g p _
-    simp only [safeImpl, ArraySafeGrid.get, SafeGrid.get, Storage.get]
+    simp only [safeImpl, ArraySafeGrid.get, SafeGrid.get, Storage.get] <;>
+      (cases readAt (nest g.kind e) g.grid.storage (getAddr g.kind p) <;> rfl)
   set_some := by
     intro e g p v s _ h
     simp only [safeImpl, ArraySafeGrid.set, SafeGrid.set, Storage.set, h, Option.map]
@@ -112,8 +113,8 @@ def unsafeView : View unsafeImpl where
   new_cells := fun _ => rfl
   get_nf := by
     intro e g p h
-    simp only [unsafeImpl, ArrayUnsafeGrid.get, UnsafeGrid.get, Storage.get, h, if_true]
-    cases readAt (nest g.kind e) g.grid.storage (getAddr g.kind p) <;> rfl
+    simp only [unsafeImpl, ArrayUnsafeGrid.get, UnsafeGrid.get, Storage.get, h, if_true] <;>
+      (cases readAt (nest g.kind e) g.grid.storage (getAddr g.kind p) <;> rfl)
   set_some := by
     intro e g p v s hw h
     simp only [unsafeImpl, ArrayUnsafeGrid.set, UnsafeGrid.set, Storage.set, h, Option.map]
